@@ -710,7 +710,7 @@ func parseShortTermRPS(r *bits.EBSPReader, idx, numSTRefPicSets byte, sps *SPS) 
 		//deltaRps := (1 - (deltaRpsSign << 1)) * (absDeltaRpsMinus1 + 1)
 		refIdx := idx - deltaIdx
 		numDeltaPocs := sps.ShortTermRefPicSets[refIdx].NumDeltaPocs
-		for j := byte(0); j <= numDeltaPocs; j++ {
+		for j := 0; j <= int(numDeltaPocs); j++ {
 			usedByCurrPicFlag := r.ReadFlag()
 			useDeltaFlag := true
 			if !usedByCurrPicFlag {
@@ -719,6 +719,13 @@ func parseShortTermRPS(r *bits.EBSPReader, idx, numSTRefPicSets byte, sps *SPS) 
 			if usedByCurrPicFlag || useDeltaFlag {
 				stps.NumDeltaPocs++
 			}
+			if r.AccError() != nil {
+				return stps
+			}
+		}
+		if stps.NumDeltaPocs > 2*maxSTRefPics {
+			r.SetError(fmt.Errorf("more than %d short term reference pictures", 2*maxSTRefPics))
+			return stps
 		}
 	} else {
 		stps.NumNegativePics = byte(r.ReadExpGolomb())
